@@ -18,3 +18,7 @@ open Gossamer.C34
 #print axioms heapPush_spec
 #print axioms Gossamer.Monitor.linearizable
 #print axioms Gossamer.Monitor.no_conflict
+#print axioms C34_check_then_act_rejected
+#print axioms Gossamer.C34.goodTable_today
+#print axioms Gossamer.C34.goodTable_rwmutex
+#print axioms Gossamer.Monitor.modeIn_lock
